@@ -30,7 +30,16 @@ pub enum Step {
     Wait { h: String },
     Waitall {},
     Sopen { h: String, c: usize, sub: String, #[serde(default)] max: i64, #[serde(default)] maxb: i64 },
-    Ssend { h: String, #[serde(default)] acks: Vec<AckRef>, #[serde(default)] mods: Vec<(AckRef, i32)> },
+    Ssend {
+        h: String,
+        #[serde(default)] acks: Vec<AckRef>,
+        #[serde(default)] mods: Vec<(AckRef, i32)>,
+        /// Raw overrides for malformed control messages.
+        #[serde(default)] rsub: Option<String>,
+        #[serde(default)] rmax: Option<i64>,
+        #[serde(default)] rmaxb: Option<i64>,
+        #[serde(default)] rsecs: Option<Vec<i32>>,
+    },
     Sclose { h: String },
     Sabandon { h: String },
     Swait { h: String },
@@ -98,6 +107,9 @@ pub async fn run_scenario(scenario: &Scenario, out: Option<Out>) -> Vec<Value> {
     let gate = Arc::new(crate::gate::Gate::new());
     deltio::verif::install_local_controller(Some(gate.clone()));
     let world = World::start(scenario.cap, scenario.phase, out).await;
+    if scenario.meta.get("inputs").and_then(|v| v.as_bool()).unwrap_or(false) {
+        world.inputs.store(true, std::sync::atomic::Ordering::SeqCst);
+    }
     let mut calls: HashMap<String, (usize, tokio::task::JoinHandle<()>)> = HashMap::new();
     let mut streams: HashMap<String, StreamHandle> = HashMap::new();
     let mut held: Vec<crate::libcall::Held> = Vec::new();
@@ -187,9 +199,14 @@ pub async fn run_scenario(scenario: &Scenario, out: Option<Out>) -> Vec<Value> {
                 let handle = stream_open(Arc::clone(&world), c, sub, max, maxb).await;
                 streams.insert(h, handle);
             }
-            Step::Ssend { h, acks, mods } => {
+            Step::Ssend { h, acks, mods, rsub, rmax, rmaxb, rsecs } => {
                 if let Some(s) = streams.get(&h) {
-                    s.send(&world, &acks, &mods, None);
+                    let raw = if rsub.is_some() || rmax.is_some() || rmaxb.is_some() || rsecs.is_some() {
+                        Some((rsub.unwrap_or_default(), rmax.unwrap_or(0), rmaxb.unwrap_or(0), rsecs))
+                    } else {
+                        None
+                    };
+                    s.send(&world, &acks, &mods, raw);
                 }
             }
             Step::Sclose { h } => {
